@@ -226,7 +226,7 @@ static int run_case(struct vf_rng *r, long idx)
 	struct dg_opts opts = { 4, 0, 0, 0 };
 	vbi_dvb_mux *mx;
 	vbi_dvb_demux *dx;
-	int nframes, i, last_reject = RJ_NONE, n_acc = 0, n_rej = 0, rejects_per = (int)vf_below(r, 3);
+	int nframes, i, last_reject = RJ_NONE, n_acc = 0, n_rej = 0, rejects_per = (int)vf_below(r, 3), recut = vf_chance(r, 1, 3);
 	int64_t base_pts = (int64_t)(vf_u64(r) & 0x1FFFFFFFFll);
 	char why[400];
 	(void)idx;
@@ -390,8 +390,27 @@ static int run_case(struct vf_rng *r, long idx)
 			want_packet(&frame, pes.size);
 			vf_phase("vbi_dvb_demux_feed");
 			for (k = 0; k < out.n_units; k++) {
-				if (out.unit[k]) vbi_dvb_demux_feed(dx, out.buf + off, out.unit[k]);
-				off += out.unit[k];
+				/* the statement does not say in which pieces the demultiplexer gets the bytes: in one stream of
+				   three every output unit is cut once more, often next to the end of the PES header (C07 does
+				   this systematically; here it keeps the round trip honest) */
+				size_t u = out.unit[k], cut = 0;
+				if (recut && u > 1) {
+					static const unsigned near_hdr[] = { 1, 4, 6, 9, 45, 46, 47, 48, 92, 184, 188, 192, 235 };
+					cut = vf_chance(r, 1, 2) ? near_hdr[vf_below(r, sizeof near_hdr / sizeof near_hdr[0])] : (size_t)vf_range(r, 1, (int)u - 1);
+					if (cut >= u) cut = u / 2;
+				}
+				if (cut) {
+					uint8_t *p1 = malloc(cut), *p2 = malloc(u - cut);       /* exactly sized blocks: ASan sees look-behind / look-ahead */
+					if (p1 && p2) {
+						memcpy(p1, out.buf + off, cut); memcpy(p2, out.buf + off + cut, u - cut);
+						vbi_dvb_demux_feed(dx, p1, (unsigned)cut);
+						free(p1); p1 = NULL;
+						vbi_dvb_demux_feed(dx, p2, (unsigned)(u - cut));
+						vf_count("demux_units_recut", 1);
+					}
+					free(p1); free(p2);
+				} else if (u) vbi_dvb_demux_feed(dx, out.buf + off, (unsigned)u);
+				off += u;
 			}
 			n_acc++;
 			vf_count("frames_accepted", 1);
